@@ -198,13 +198,14 @@ Open(n) ==
      /\ Start(<<>>, hint, Append(ofiles, [n |-> n, b |-> e.b, i |-> e.i, c |-> e.sl.c, len |-> e.sl.s, dirty |-> FALSE]), <<"open", n>>)
   /\ flushed' = flushed
 
-\* open with truncation (volume_mgr.rs 616-641): cut the chain, then rewrite the entry
+\* open with truncation (volume_mgr.rs 625-652): rewrite the entry with length 0, then cut the chain (in this order since
+\* the repair of F30: a failure in between leaves an empty file with too many clusters, not a file longer than its chain)
 OpenTrunc(n) ==
   /\ Idle /\ Len(ofiles) < MaxOpen /\ ~IsOpen(n) /\ LookupIdx(fat, blk, n) # 0
   /\ LET e == Live(fat, blk)[LookupIdx(fat, blk, n)]
          t == Truncate(fat, hint, e.sl.c)
      IN /\ e.sl.k = "file"
-        /\ StartC(t.ws \o <<[t |-> "slot", b |-> e.b, i |-> e.i, sl |-> [e.sl EXCEPT !.s = 0]]>>, t.hint,
+        /\ StartC(<<[t |-> "slot", b |-> e.b, i |-> e.i, sl |-> [e.sl EXCEPT !.s = 0]]>> \o t.ws, t.hint,
                   Append(ofiles, [n |-> n, b |-> e.b, i |-> e.i, c |-> e.sl.c, len |-> 0, dirty |-> FALSE]), <<"opentrunc", n>>,
                   IF t.freed > 0 THEN <<t.freed>> ELSE <<>>, FALSE)
   /\ flushed' = Unflush(n)
